@@ -171,6 +171,40 @@ def passthrough(sl):
     observe("no state created", TASK not in tc.task_stats)
 
 
+TASK_B = track.Task("other", track.Operation("op2", "search"))
+
+
+def other_task_frame(sl):
+    """A call whose batch holds no sample of task A must leave A's running state alone (frame condition): the
+    one-step induction for A is only valid if calls for other tasks are no-ops for A."""
+    nu, nb = sl["carried"], sl["new"]
+    with shadowed(driver, ("int",)):
+        start = fresh_real("start")
+        interval = fresh_real("interval", 0)
+        bucket = fresh_int("bucket", BI)
+        total = fresh_int("total", 0)
+        has = fresh_bool("has")
+        stype = fresh_int("stype", 0, 1)
+        core.assume(interval < bucket)
+        carried = _samples("u", nu, start)
+        tc = driver.ThroughputCalculator()
+        st = driver.ThroughputCalculator.TaskStats(bucket_interval=BI, sample_type=stype, start_time=start)
+        st.unprocessed = list(carried)
+        st.total_count, st.interval, st.bucket, st.has_samples_in_sample_type = total, interval, bucket, has
+        tc.task_stats[TASK] = st
+        batch = _samples("b", nb, start)
+        for s in batch:
+            s.task = TASK_B
+        out = tc.calculate(list(batch), bucket_interval_secs=BI)
+        observe("state of the absent task still there", tc.task_stats.get(TASK) is st)
+        observe("total_count untouched", st.total_count == total)
+        observe("unprocessed untouched", len(st.unprocessed) == nu and all(a is b for a, b in zip(st.unprocessed, carried)))
+        observe("interval/bucket/flags untouched", s_and(st.interval == interval, st.bucket == bucket, st.has_samples_in_sample_type == has,
+                                                        st.sample_type == stype))
+        observe("no value emitted for the absent task", len(out.get(TASK, [])) == 0)
+        observe("other task accounted", TASK_B in tc.task_stats and TASK_B in out)
+
+
 def _carry_slices(tier):
     m = 2 if tier == "quick" else 3
     return [{"carried": u, "new": b, "_w": u + b} for u in range(0, m + 1) for b in range(1, m + 1)]
@@ -190,6 +224,9 @@ HARNESSES = [
     Harness("first_call", first_call, "symbolic", lambda tier: [{"new": n} for n in range(1, 4 if tier == "quick" else 5)], reads=READS,
             bounds={"new": "<=3 quick / <=4 thorough"}, assumptions=["floats modelled as exact reals (model R)"], real_valued=True,
             doc="first calculate() of a task establishes the invariant and emits a normal value"),
+    Harness("other_task_frame", other_task_frame, "symbolic", lambda tier: [{"carried": u, "new": b} for u in (0, 1, 2) for b in (1, 2)], reads=READS,
+            bounds={"carried": "<=2", "new": "<=2 samples of another task"}, real_valued=True,
+            doc="frame condition: a batch without samples of a task leaves that task's state unchanged"),
     Harness("passthrough", passthrough, "symbolic", lambda tier: [{"new": n} for n in (1, 2, 3)], reads=READS,
             bounds={"new": "<=3"}, real_valued=True, doc="runner-supplied throughput is passed through"),
 ]
